@@ -104,6 +104,9 @@ def well_formed_cases(r: Run, keys):
         for iso in [None] + isos:
             for cnt in (None, 3):
                 out.append(render([("e", sym, iso, cnt)]))
+    # D34 (known finding): groups counted zero times whose body's own totals leave i32 (the formula's totals all fit) — and the
+    # same shapes with bodies that stay inside i32, which must parse
+    out += ["(C2000000000C2000000000)0", "H2(O2147483647O)0", "((C1500000000)2)0H", "(C2000000000)0", "(C2H4)0O", "((CH2)3)0C"]
     # adjacency patterns of the 8-state machine
     pats = ["CH", "C[13]H", "Cl[37]C", "C[13]2H", "C2H", "C(H)", "C[13](H)", "C2(H)", "(C)(H)", "(C)2(H)", "(C)H", "(C)2H",
             "((C))", "((C)2)3", "(C(H)2)2O", "H+", "H+2", "CH+", "H+C", "(H+)2", "C[13]", "C[13]2", "(C[13])", "(C[13]2)",
@@ -324,6 +327,43 @@ def shrink_string(r, s, pred):
         return s
 
 
+def zero_group_overflow(s):
+    """D34: does the well-formed formula `s` hold a group with multiplier 0 whose body's per-key totals (computed before the
+    multiplication) leave i32?  Plain recursive descent over ( … )n, Sym, Sym[iso], counts; None if `s` is not of that shape."""
+    import re
+    pos = 0
+
+    def terms(depth):
+        nonlocal pos
+        tot, hit = {}, False
+        while pos < len(s) and s[pos] != ")":
+            if s[pos] == "(":
+                pos += 1
+                body, h = terms(depth + 1)
+                if pos >= len(s) or s[pos] != ")":
+                    raise ValueError
+                pos += 1
+                m = re.match(r"\d+", s[pos:])
+                n = int(m.group()) if m else 1
+                pos += len(m.group()) if m else 0
+                hit |= h or (n == 0 and any(v > I32MAX for v in body.values()))
+                for k, v in body.items():
+                    tot[k] = tot.get(k, 0) + v * n
+            else:
+                m = re.match(r"([A-Z][a-z]*\+?)(\[\d*\])?(\d+)?", s[pos:])
+                if not m or not m.group():
+                    raise ValueError
+                pos += len(m.group())
+                k = m.group(1) + (m.group(2) or "")
+                tot[k] = tot.get(k, 0) + (int(m.group(3)) if m.group(3) else 1)
+        return tot, hit
+    try:
+        _, hit = terms(0)
+        return hit if pos == len(s) else None
+    except (ValueError, RecursionError):
+        return None
+
+
 def judge_parse(prop, wf, il, dl):
     """classify one parse case; returns (kind, detail) or None"""
     parts = dl.split("\t")
@@ -391,6 +431,13 @@ def run_parse(r: Run, prop):
         verdict_hist[(il.split(" ")[0], verdict)] = verdict_hist.get((il.split(" ")[0], verdict), 0) + 1
         if is_wf and verdict != "accept" and len(s) < 3000:
             raise Broken(f"generator/oracle: well-formed {s[:60]!r} judged {verdict}")
+        if il.split(" ")[0] in ("panic", "abort") and verdict == "accept" and "(" in s and zero_group_overflow(s):
+            # D34 (known finding, C01): a group multiplied by 0 whose body's totals leave i32 — the body is summed first
+            if prop == "C01":
+                r.violation("zero-multiplier-overflow", {"group_multiplier": 0, "body_total": "exceeds i32"},
+                            f"parsing {s[:80]!r}: {il[:40]} — every per-key total of the formula fits in i32 (the group counts zero times), "
+                            f"the body's own totals do not", observed={"lines": [line_of(s, sub)], "string": s[:200], "impl": il[:100]})
+            continue
         j = judge_parse(prop, is_wf, il, dl)
         if j is None:
             continue
